@@ -43,6 +43,7 @@ def run(ctx) -> None:
                   "record = addr '::' mnemonic ',' operands joined by ',' (all operands, in order)")
     for feed in ("two", "many"):
         bad = []
+        seen_full = False
         for s in consumer_scenarios(I, feed):
             if s.path.kind != "return":
                 continue
@@ -51,8 +52,14 @@ def run(ctx) -> None:
                 import re as _re
                 want = (r"<inst1\.stringify[^>]*>,\|<inst2\.stringify[^>]*>,\|" if feed == "two" else
                         r"JOIN\('',S'<inst\.stringify[^>]*>,\|' over consumed instructions\)")
+                if feed == "many" and st == "''" and any(l.startswith("not ") and "non-empty" in l for l in s.path.cond_labels()):
+                    continue
                 if not _re.fullmatch(want, st):
                     bad.append(st)
+                else:
+                    seen_full = True
+        if not seen_full and not bad:
+            bad.append("no path searches the joined stream")
         ctx.check(not bad, "C10.W.record-terminator", f"CompleteConsumer.consume_instruction[{feed}]", ";".join(sorted(set(bad)))[:200],
                   "every record is stringify() + ',|' and the stream is their in-order concatenation with nothing between")
     paths, sites, pats = instr_patterns(I)
